@@ -288,9 +288,29 @@ def reach(a, b):
     return c
 
 
+def real_ckil(line):
+    """several Checksum objects alive at once: N new object, A<k>:<hex> add bytes to object k, R<k> reset, V<k> value"""
+    objs, out = [], []
+    for op in line.split('|', 1)[1].split(';'):
+        if op == 'N':
+            objs.append(Checksum())
+        elif op[0] == 'A':
+            k, h = op[1:].split(':')
+            for x in bytes.fromhex(h):
+                objs[int(k)].add(x)
+        elif op[0] == 'R':
+            objs[int(op[1:])].reset()
+        elif op[0] == 'V':
+            va, vb = objs[int(op[1:])].value()
+            out.append(f'{va},{vb}')
+    return ' '.join(out)
+
+
 def real_ck(line):
     p = line.split('|')
     try:
+        if p[0] == 'ckil':
+            return real_ckil(line)
         if p[0] == 'ck':
             a, b = int(p[1]), int(p[2])
             out = bytearray()
@@ -344,6 +364,21 @@ def real_ck(line):
 
 def oracles_ck(line, real_out):
     p = line.split('|')
+    if p[0] == 'ckil':
+        objs, exp = [], []
+        for op in p[1].split(';'):
+            if op == 'N':
+                objs.append(bytearray())
+            elif op[0] == 'A':
+                k, h = op[1:].split(':')
+                objs[int(k)] += bytes.fromhex(h)
+            elif op[0] == 'R':
+                objs[int(op[1:])] = bytearray()
+            elif op[0] == 'V':
+                exp.append('%d,%d' % fletcher(objs[int(op[1:])]))
+        e = ' '.join(exp)
+        return [{'prop': 'C15', 'ok': real_out == e, 'expected': e[:300], 'observed': real_out[:300],
+                 'what': 'the result depends only on the byte sequence fed to THIS object since its creation or reset (several objects alive at once)'}], []
     if p[0] == 'ckgen':
         return [], [{'line': 'ckgen|' + '|'.join(p[1:]), 'expect': real_out, 'prop': 'C15',
                      'what': 'CK_A / CK_B are the sums mod 256 for every byte sequence, however long; after reset() the object is as new'}]
@@ -376,6 +411,21 @@ def gen_ck(rng, n, profile):
             yield f'ck|{a}|{b}'
     for _ in range(16 if not profile.startswith('all-states') else 64):
         yield f'ckm|{rng.randrange(256)}|{rng.randrange(256)}'
+    # several objects alive at once, fed in turns
+    for _ in range(30):
+        ops, nobj = ['N'], 1
+        for _ in range(rng.randrange(4, 14)):
+            k = rng.random()
+            if k < 0.2:
+                ops.append('N')
+                nobj += 1
+            elif k < 0.3:
+                ops.append(f'R{rng.randrange(nobj)}')
+            elif k < 0.75:
+                ops.append(f'A{rng.randrange(nobj)}:' + bytes(rng.randrange(256) for _ in range(rng.randrange(1, 6))).hex())
+            else:
+                ops.append(f'V{rng.randrange(nobj)}')
+        yield 'ckil|' + ';'.join(ops + [f'V{k}' for k in range(nobj)])
     # long runs: the running sums must stay reduced however many bytes go into one object
     longs = [5802, 5803, 5804, 6000, 8200, 20000, 65535, 65536, 100000] + ([300000, 1000000, 3000000] if profile.startswith('all-states') else [])
     for ln in longs:
@@ -646,9 +696,40 @@ def item_str(c, v=None):
     return f'{c.group_id},{c.item_id},{c.bits},{int(c.signed)},{int(c.value if v is None else v)}'
 
 
+def real_keyseq(line):
+    """ONE CfgKeyData object used again and again: P pack, S str, U<hex> unpack into it, G/I/B/V/Z<value> assign
+    group_id / item_id / bits / value / signed"""
+    c = CfgKeyData('data0', 0, 0, 8, 0, False)
+    out = []
+    for op in line.split('|', 1)[1].split(';'):
+        try:
+            if op == 'P':
+                out.append(bytes(c.pack()).hex())
+            elif op == 'S':
+                out.append('str:' + str(c).replace(' ', '_'))
+            elif op[0] == 'U':
+                n = c.unpack(bytearray(bytes.fromhex(op[1:])))
+                out.append(f'{item_str(c)},n={n}')
+            elif op[0] == 'G':
+                c.group_id = int(op[1:])
+            elif op[0] == 'I':
+                c.item_id = int(op[1:])
+            elif op[0] == 'B':
+                c.bits = int(op[1:])
+            elif op[0] == 'V':
+                c.value = int(op[1:])
+            elif op[0] == 'Z':
+                c.signed = op[1:] == '1'
+        except Exception as e:
+            out.append('EXC:' + exc_name(e))
+    return ' '.join(out)
+
+
 def real_key(line):
     p = line.split('|')
     try:
+        if p[0] == 'keyseq':
+            return real_keyseq(line)
         if p[0] == 'keypack':
             g, i, bits, sg, v = int(p[1]), int(p[2]), int(p[3]), p[4] == '1', int(p[5])
             return bytes(CfgKeyData('x', g, i, bits, v, sg).pack()).hex()
@@ -688,8 +769,40 @@ def table_signed(key):
         return False
 
 
+def oracles_keyseq(line, real_out):
+    """every P of the sequence is judged like a fresh keypack of the object's fields at that moment"""
+    g, i, bits, sg, v = 0, 0, 8, False, 0
+    outs = real_out.split(' ')
+    recs, k = [], 0
+    for op in line.split('|', 1)[1].split(';'):
+        if op in ('P', 'S') or op[0] == 'U':
+            o = outs[k] if k < len(outs) else 'missing'
+            k += 1
+            if op == 'P':
+                r, _ = oracles_key(f'keypack|{g}|{i}|{bits}|{int(sg)}|{v}', o)
+                for x in r:
+                    x['what'] += ' (one item object encoded again after its fields were changed)'
+                recs += [x for x in r if x['prop'] in ('C13', 'C14')][:1]
+            elif op[0] == 'U' and not o.startswith('EXC'):
+                f = o.split(',')
+                g, i, bits, sg, v = int(f[0]), int(f[1]), int(f[2]), f[3] == '1', int(f[4])
+        elif op[0] == 'G':
+            g = int(op[1:])
+        elif op[0] == 'I':
+            i = int(op[1:])
+        elif op[0] == 'B':
+            bits = int(op[1:])
+        elif op[0] == 'V':
+            v = int(op[1:])
+        elif op[0] == 'Z':
+            sg = op[1:] == '1'
+    return recs, []
+
+
 def oracles_key(line, real_out):
     p = line.split('|')
+    if p[0] == 'keyseq':
+        return oracles_keyseq(line, real_out)
     recs, spec = [], []
     if p[0] == 'keypack':
         g, i, bits, sg, v = int(p[1]), int(p[2]), int(p[3]), p[4] == '1', int(p[5])
@@ -796,6 +909,30 @@ def gen_key(rng, n, profile):
                 yield f'fromkey|{k2}|{top}'
                 yield 'keyunpack|' + (struct.pack('<I', k2) + top.to_bytes(WIDTH[bits], 'little')).hex()
                 yield f'keypack|{(k2 >> 16) & 0xff}|{k2 & 0xfff}|{bits}|0|{top}'
+    # one item object reused: encode / print / decode into it / change its fields, in every order
+    for _ in range(max(40, n // 4)):
+        ops = []
+        for _ in range(rng.randrange(3, 9)):
+            k = rng.random()
+            if k < 0.3:
+                ops.append('P')
+            elif k < 0.4:
+                ops.append('S')
+            elif k < 0.55:
+                key = rng.choice(keys)
+                bits = {1: 1, 2: 8, 3: 16, 4: 32, 5: 64}[(key >> 28) & 7]
+                ops.append('U' + (struct.pack('<I', key) + bytes(rng.choice([0, 1]) if bits == 1 else rng.randrange(256) for _ in range(WIDTH[bits]))).hex())
+            elif k < 0.65:
+                ops.append(f'G{rng.choice([0, 6, 0x21, 0xff])}')
+            elif k < 0.75:
+                ops.append(f'I{rng.choice([1, 0x2e, 0x2f, 0xfff])}')
+            elif k < 0.87:
+                ops.append(f'B{rng.choice([1, 8, 16, 32, 64])}')
+            elif k < 0.95:
+                ops.append(f'V{rng.choice([0, 1, 4, 200, 255])}')
+            else:
+                ops.append(f'Z{rng.randrange(2)}')
+        yield 'keyseq|' + ';'.join(ops + ['P'])
     for bits in (1, 8, 16, 32, 64):
         for sg in (0, 1):
             for g in (0, 1, 0x7f, 0xff):
@@ -1047,7 +1184,13 @@ def gen_gnss(rng, n, profile):
         yield f'gnss|{op}|{rng.randrange(8)}|{bl}' + rng.choice(['', '', '|P'])
 
 
+def start_frame(cls, init):
+    """a fresh frame, or one decoded from a payload (a frame that was used before / came from the receiver)"""
+    return cls() if init in ('', '-') else cls.construct(bytearray(bytes.fromhex(init)))
+
+
 def real_helper(line):
+    """helper|<name>|args…|<initial payload hex or ->: the helper applied to a fresh or a decoded frame, then pack()"""
     p = line.split('|')
     try:
         if p[1] == 'rate':
@@ -1056,23 +1199,23 @@ def real_helper(line):
             f.set_rate_in_hz(int(p[2]))
         elif p[1] in ('save', 'reset'):
             from ubxlib.ubx_cfg_cfg import UbxCfgCfgAction
-            f = UbxCfgCfgAction()
+            f = start_frame(UbxCfgCfgAction, p[3] if len(p) > 3 else '-')
             getattr(f, p[1])(int(p[2]))
         elif p[1] == 'rst':
             from ubxlib.ubx_cfg_rst import UbxCfgRstAction
-            f = UbxCfgRstAction()
+            f = start_frame(UbxCfgRstAction, p[3] if len(p) > 3 else '-')
             getattr(f, p[2])()
         elif p[1] == 'sos':
             from ubxlib.ubx_upd_sos import UbxUpdSosAction
-            f = UbxUpdSosAction()
+            f = start_frame(UbxUpdSosAction, p[3] if len(p) > 3 else '-')
             getattr(f, p[2])()
         elif p[1] == 'esflaset':
             from ubxlib.ubx_cfg_esfla import UbxCfgEsflaSet
-            f = UbxCfgEsflaSet()
+            f = start_frame(UbxCfgEsflaSet, p[6] if len(p) > 6 else '-')
             f.set(*map(int, p[2:6]))
         elif p[1] == 'utc':
             from ubxlib.ubx_mga_ini_time_utc import UbxMgaIniTimeUtc
-            f = UbxMgaIniTimeUtc()
+            f = start_frame(UbxMgaIniTimeUtc, p[8] if len(p) > 8 else '-')
             f.set_datetime(datetime.datetime(*map(int, p[2:8])))
         elif p[1] == 'leverarm':
             from ubxlib.ubx_cfg_esfla import UbxCfgEsfla
@@ -1111,10 +1254,12 @@ def oracles_helper(line, real_out):
     elif p[1] == 'rst':
         exp = {'warm_start': '01000100', 'cold_start': 'ffff0100', 'start': '00000900', 'stop': '00000800'}[p[2]]
     elif p[1] == 'sos':
-        exp = {'backup': '00000000', 'clear': '01000000'}[p[2]]
+        init = bytes.fromhex(p[3]) if len(p) > 3 and p[3] not in ('', '-') else bytes(4)
+        exp = ({'backup': '00', 'clear': '01'}[p[2]] + init[1:4].hex()) if len(init) == 4 else None
     elif p[1] == 'esflaset':
         t, x, y, z = map(int, p[2:6])
-        if 0 <= t <= 1 and all(-1000 <= v <= 1000 for v in (x, y, z)):
+        init = bytes.fromhex(p[6]) if len(p) > 6 and p[6] not in ('', '-') else bytes([0, 1]) + bytes(10)
+        if 0 <= t <= 1 and all(-1000 <= v <= 1000 for v in (x, y, z)) and init[:2] == bytes([0, 1]) and len(init) == 12:
             exp = (bytes([0, 1, 0, 0, t, 0]) + le(x, 2, True) + le(y, 2, True) + le(z, 2, True)).hex()
     elif p[1] == 'utc':
         y, mo, d, h, mi, s = map(int, p[2:8])
@@ -1140,23 +1285,31 @@ def gen_helper(rng, n, profile):
     for r in range(0, 12):
         for pl in ('e80301000100', '000000000000', 'ffffffffffff'):
             yield f'helper|rate|{r}|{pl}'
+    def init(size):
+        """'-' = a fresh frame; otherwise the payload the frame was decoded from (a frame used before: no field is zero)"""
+        return rng.choice(['-', bytes([0xff] * size).hex(), bytes(rng.randrange(1, 256) for _ in range(size)).hex()])
     for m in [0, 1, 0x1f1f, 0xffff, 0xffffffff, 0x80000000] + [rng.randrange(1 << 32) for _ in range(max(4, n // 10))]:
-        yield f'helper|save|{m}'
-        yield f'helper|reset|{m}'
+        for _ in range(2):
+            yield f'helper|save|{m}|{init(12)}'
+            yield f'helper|reset|{m}|{init(12)}'
     for a in ('warm_start', 'cold_start', 'start', 'stop'):
-        yield f'helper|rst|{a}'
+        for i in ('-', 'ffffffff', '12345678'):
+            yield f'helper|rst|{a}|{i}'
     for a in ('backup', 'clear'):
-        yield f'helper|sos|{a}'
+        for i in ('-', 'ffffffff', '12345678'):
+            yield f'helper|sos|{a}|{i}'
     for t in (0, 1, 2):
         for v in (-1001, -1000, -1, 0, 1, 999, 1000, 1001):
             yield f'helper|esflaset|{t}|{v}|{-v}|{rng.randrange(-1000, 1001)}'
     for _ in range(n):
-        yield f'helper|esflaset|{rng.randrange(2)}|{rng.randrange(-1000, 1001)}|{rng.randrange(-1000, 1001)}|{rng.randrange(-1000, 1001)}'
+        i = rng.choice(['-', '-', (bytes([0, 1]) + bytes(rng.randrange(1, 256) for _ in range(10))).hex(), bytes(rng.randrange(1, 256) for _ in range(12)).hex()])
+        yield f'helper|esflaset|{rng.randrange(2)}|{rng.randrange(-1000, 1001)}|{rng.randrange(-1000, 1001)}|{rng.randrange(-1000, 1001)}|{i}'
     for y, mo, d, h, mi, s in [(1, 1, 1, 0, 0, 0), (9999, 12, 31, 23, 59, 59), (2000, 2, 29, 12, 0, 0), (255, 1, 1, 0, 0, 0), (256, 1, 1, 0, 0, 0),
                                (1980, 1, 6, 0, 0, 0), (2038, 1, 19, 3, 14, 7)]:
         yield f'helper|utc|{y}|{mo}|{d}|{h}|{mi}|{s}'
     for _ in range(n):
-        yield f'helper|utc|{rng.randrange(1, 10000)}|{rng.randrange(1, 13)}|{rng.randrange(1, 29)}|{rng.randrange(24)}|{rng.randrange(60)}|{rng.randrange(60)}'
+        i = rng.choice(['-', '-', bytes([0xff] * 24).hex(), bytes(rng.randrange(1, 256) for _ in range(24)).hex()])
+        yield f'helper|utc|{rng.randrange(1, 10000)}|{rng.randrange(1, 13)}|{rng.randrange(1, 29)}|{rng.randrange(24)}|{rng.randrange(60)}|{rng.randrange(60)}|{i}'
     for _ in range(n):
         cnt = rng.randrange(0, 6)
         pl = bytearray([0, cnt, 0, 0])
